@@ -679,7 +679,8 @@ func (e *Engine) VerifyFunc(bc *BoundContract) (rep *FuncReport) {
 			post.finalFr = fr
 			post.finalSt = out
 			for _, en := range bc.Ensures {
-				o := &Obligation{Kind: "ensures", Name: en.Text(), PC: out.pc, Goal: post.evalBool(en.Expr), Pos: e.Fset.Position(fn.Pos())}
+				enc := en
+				o := &Obligation{Kind: "ensures", Name: en.Text(), PC: out.pc, Goal: post.evalBool(en.Expr), Pos: e.Fset.Position(fn.Pos()), Clause: &enc}
 				if en.Clause.Name != "" {
 					if k, ok := bc.Known[en.Clause.Name]; ok {
 						o.Known = k
